@@ -21,3 +21,23 @@ def maybe_mutants(prop, rep, tier):
     if tier == "thorough" and not os.environ.get("VERIF_NO_MUTANTS"):
         import mutants
         mutants.run_mutants(prop, rep)
+
+_ctl = [None]
+
+
+def control_prog():
+    import zw
+    if _ctl[0] is None:
+        _ctl[0] = zw.Program(controls=True)
+    return _ctl[0]
+
+
+def control(rep, rid, rulefn, expect):
+    """positive control: the rule run on /verif/controls must report every key in `expect`"""
+    from zw import Broken
+    res = rulefn(control_prog())
+    keys = [f["key"] for f in res[1]]
+    missing = [e for e in expect if not any(e in k for k in keys)]
+    if missing:
+        raise Broken("positive control for rule %s not detected: %s (reported: %s)" % (rid, missing, keys))
+    rep.notes.append("positive control for %s detected: %s" % (rid, ", ".join(expect)))
